@@ -201,6 +201,17 @@ fn main() {
                 let roots: Vec<Value> = res.iter().map(|r| r.to_json()).collect();
                 out.push(json!({"name": job["name"], "roots": roots, "arena": arena_json()}));
             }
+            "opflags" => {
+                // the AIR's own composite shift flags of the current row (real OpFlags code)
+                arena_reset();
+                let mut cur: Vec<Sym> = (0..w).map(|i| Sym::var(&format!("c{i}"))).collect();
+                let next: Vec<Sym> = (0..w).map(|i| Sym::var(&format!("n{i}"))).collect();
+                apply_consts(&mut cur, &job["cur"]);
+                let frame = EvaluationFrame::from_rows(cur, next);
+                let flags = miden_air::stack::op_flags::OpFlags::new(&frame);
+                let roots: Vec<Value> = vec![flags.left_shift().to_json(), flags.right_shift().to_json(), flags.overflow().to_json()];
+                out.push(json!({"name": job["name"], "roots": roots, "arena": arena_json()}));
+            }
             "aux_transition" => {
                 arena_reset();
                 let mut cur: Vec<Sym> = (0..w).map(|i| Sym::var(&format!("c{i}"))).collect();
